@@ -196,6 +196,7 @@ def check_ts(b, res: Result, s, n, off_min, pos):
             res.violation("decode", sig0 + ["different-instant"], f"{dt.isoformat()} decoded as {back!r}", w)
     except Exception as e:
         res.violation("decode", sig0 + ["raised:" + type(e).__name__], f"{dt.isoformat()}: parse raised {e!r}", w)
+    _other_entry_points(cls, m, data, nm, pos, dt, sig0, res, w, dt.isoformat())
     if pos in ("singular", "optional", "oneof", "repeated"):
         try:
             d = m.to_dict()
@@ -233,6 +234,34 @@ def check_ts(b, res: Result, s, n, off_min, pos):
                     res.violation("json", sig0 + ["offset-spelling-raised:" + type(e).__name__], f"{alt!r}: {e!r}", w)
     if len(res.samples) < 2:
         res.sample({"datetime": dt.isoformat(), "position": pos, "seconds_nanos": list(got), "bytes": data.hex()})
+
+
+def _other_entry_points(cls, m, data, nm, pos, value, sig0, res: Result, w, what):
+    """the value must decode back identically through every binary entry point the library offers, not only bytes/parse:
+    SerializeToString / FromString and dump / load with SIZE_DELIMITED (whose length prefix comes from len(m))"""
+    import io
+
+    import betterproto
+
+    res.counters["entry_point_roundtrips"] += 1
+    try:
+        if m.SerializeToString() != data:
+            res.violation("encode", sig0 + ["SerializeToString-differs-from-bytes"], f"{what}", w)
+        back = _unwrap(pos, getattr(cls.FromString(data), nm))
+        if back != value:
+            res.violation("decode", sig0 + ["FromString-different-value"], f"{what} decoded as {back!r}", w)
+        s = io.BytesIO()
+        m.dump(s, betterproto.SIZE_DELIMITED)
+        m.dump(s, betterproto.SIZE_DELIMITED)
+        s.seek(0)
+        for i in range(2):
+            back = _unwrap(pos, getattr(cls().load(s, betterproto.SIZE_DELIMITED), nm))
+            if back != value:
+                res.violation("decode", sig0 + ["delimited-different-value"], f"{what}: frame {i} of a size-delimited stream decoded as {back!r}", w)
+        if s.read() != b"":
+            res.violation("decode", sig0 + ["delimited-bytes-left-over"], f"{what}: two size-delimited frames were not consumed exactly", w)
+    except Exception as e:
+        res.violation("decode", sig0 + ["entry-point-raised:" + type(e).__name__], f"{what}: SerializeToString / FromString / size-delimited dump+load: {e!r}", w)
 
 
 def check_du(b, res: Result, s, n, pos):
@@ -273,6 +302,7 @@ def check_du(b, res: Result, s, n, pos):
             res.violation("decode", sig0 + ["different-span"], f"{td!r} decoded as {back!r}", w)
     except Exception as e:
         res.violation("decode", sig0 + ["raised:" + type(e).__name__], f"{td!r}: parse raised {e!r}", w)
+    _other_entry_points(cls, m, data, nm, pos, td, sig0, res, w, repr(td))
     if pos in ("singular", "optional", "oneof", "repeated"):
         try:
             d = m.to_dict()
